@@ -467,7 +467,11 @@ class _RealFinder:
             return False
         word_start = self._find_word_start(offset)
         prev_char = self._find_last_non_space_char(word_start - 1)
-        return prev_char - 1 >= 0 and self.code[prev_char] in ",("
+        if not (prev_char - 1 >= 0 and self.code[prev_char] in ",("):
+            return False
+        # a keyword stands inside the parentheses of a call or a definition; the
+        # last name of a tuple target (`x, y = ...`) does not
+        return self.code[self.find_parens_start_from_inside(offset)] == "("
 
     def is_on_function_call_keyword(self, offset):
         stop = self._get_line_start(offset)
